@@ -7,6 +7,16 @@ ROOT = os.path.dirname(os.path.dirname(os.path.abspath(__file__)))
 ALL = ["C%02d" % i for i in range(1, 21)]
 
 CLAIMED = {
+    "C11": dict(
+        category="model_checking",
+        text="MC_Polar model-checks, for every input / every information mask with N<=8 (16 for the transform), that the butterfly equals multiplication by "
+             "the Kronecker power, is an involution and commutes with bit reversal, and that textbook SC (min-sum on integers, sum-product on the ln2 "
+             "lattice, plain and interleaved) recovers every message from clean LLRs. Trace_Polar validates the real encoder (information mask = ranking "
+             "selection with exactly k positions, generator matrix, codeword = transform of the placed message) for N up to 1024, SC and polar-BP on clean "
+             "LLRs in both regimes, and SC on arbitrary inputs against the textbook rule (ties excluded by the spec).",
+        design_ref="7/C11",
+        note="The 5G reliability table is trusted data, identified structurally and by digest; sum-product SC is compared for N<=8 only (32-bit rationals).",
+        technique="TLA+ spec Polar + TLC: exhaustive design-level model checking, trace validation of recorded encodings and decodings"),
     "C05": dict(
         category="model_checking",
         text="MC_ModemMemory model-checks the memory schemes (DPSK phase accumulator, OQPSK quadrature register, pi/4-QPSK rotation flag) under every "
